@@ -153,8 +153,10 @@ STREAM(md_prod) {
           Buf ppol(bytes_of_svp_ppol(mod), 8 * rng.below(4), rng, 2);
           Buf pa(n * 8, 0, rng, 2);
           memcpy(pa.p, a.data(), n * 8);
+          ModSnap ms2(mod);
           svp_prepare(mod, (SVP_PPOL*)ppol.p, pa.as<int64_t>());
           if (memcmp(pa.p, a.data(), n * 8)) worse("FAIL C18 svp_prepare modified its source");
+          if (!ms2.same(mod)) worse("FAIL C18 svp_prepare modified the module or one of its tables");
           std::vector<int64_t> vb(asz * asl, 0x5555);
           std::vector<std::vector<int64_t>> limbs(asz);
           for (uint64_t i = 0; i < asz; i++) {
@@ -170,6 +172,14 @@ STREAM(md_prod) {
           svp_apply_dft(mod, (VEC_ZNX_DFT*)dft.p, rsz, (SVP_PPOL*)ppol.p, vin.as<int64_t>(), asz, asl);
           if (fnv(ppol.p, ppol.n) != ppol_h) worse("FAIL C18 svp_apply_dft modified the prepared scalar");
           if (memcmp(vin.p, vb.data(), asz * asl * 8)) worse("FAIL C18 svp_apply_dft modified its source vector (or its stride padding)");
+          {
+            // (C15) same data through buffers at other byte offsets: bit-identical DFT-space result
+            Buf ppol2(ppol.n, 8 * (1 + rng.below(7)), rng, 2), vin2(vin.n, 8 * (1 + rng.below(7)), rng, 2), dft2(dft.n, 8 * (1 + rng.below(7)), rng, 0);
+            memcpy(ppol2.p, ppol.p, ppol.n);
+            memcpy(vin2.p, vin.p, vin.n);
+            svp_apply_dft(mod, (VEC_ZNX_DFT*)dft2.p, rsz, (SVP_PPOL*)ppol2.p, vin2.as<int64_t>(), asz, asl);
+            if (memcmp(dft.p, dft2.p, dft.n)) worse("FAIL C15 svp_apply_dft result depends on the byte alignment of its buffers");
+          }
           uint64_t dft_h = fnv(dft.p, dft.n);
           int variant = rng.below(3);  // 0 idft separate, 1 idft in place (res == a_dft), 2 idft_tmp_a
           Buf big(bytes_of_vec_znx_big(mod, rsz), 8 * rng.below(4), rng, 2);
@@ -218,8 +228,10 @@ static void vmp_case(Out& out, Rng& rng, uint64_t n, int mask, uint64_t nrows, u
   memcpy(ba.p, av.data(), a_size * a_sl * 8);
   Buf pmat(bytes_of_vmp_pmat(mod, nrows, ncols), 8 * rng.below(4), rng, 2);
   Buf ptmp(vmp_prepare_contiguous_tmp_bytes(mod, nrows, ncols), 8 * rng.below(4), rng, 2);
+  ModSnap msnap(mod);
   vmp_prepare_contiguous(mod, (VMP_PMAT*)pmat.p, bmat.as<int64_t>(), nrows, ncols, ptmp.p);
   if (memcmp(bmat.p, mat.data(), mat.size() * 8)) worse("FAIL C18 vmp_prepare_contiguous modified the integer matrix");
+  if (!msnap.same(mod)) worse("FAIL C18 vmp_prepare_contiguous modified the module or one of its tables");
   uint64_t pmat_h = fnv(pmat.p, pmat.n);
   // path 1: integer entry point
   Buf r1(bytes_of_vec_znx_dft(mod, res_size), 8 * rng.below(4), rng, 2);
@@ -237,6 +249,19 @@ static void vmp_case(Out& out, Rng& rng, uint64_t n, int mask, uint64_t nrows, u
   if (fnv(adft.p, adft.n) != adft_h) worse("FAIL C18 vmp_apply_dft_to_dft modified its DFT source");
   if (fnv(pmat.p, pmat.n) != pmat_h) worse("FAIL C18 vmp_apply_dft_to_dft modified the prepared matrix");
   if (r1.n && memcmp(r1.p, r2.p, r1.n)) worse("FAIL C02 vmp_apply_dft and vmp_apply_dft_to_dft(vec_znx_dft) give different results");
+  if (!msnap.same(mod)) worse("FAIL C18 vmp apply / vec_znx_dft modified the module or one of its tables");
+  // (C15) history independence: the same call again through the SAME pointers after the input was overwritten in place
+  // and the scratch refilled must give the result of the new input (= a fresh computation on other buffers)
+  if (a_size && res_size) {
+    for (uint64_t i = 0; i < a_size; i++)
+      for (uint64_t j = 0; j < n; j++) ((int64_t*)ba.p)[i * a_sl + j] = arows[i][j] = rng.sbits(8);
+    for (size_t i = 0; i < t1.n; i++) t1.p[i] = (uint8_t)rng.next();
+    vmp_apply_dft(mod, (VEC_ZNX_DFT*)r1.p, res_size, ba.as<int64_t>(), a_size, a_sl, (VMP_PMAT*)pmat.p, nrows, ncols, t1.p);
+    Buf ba2(a_size * a_sl * 8, 8 * rng.below(4), rng, 2), r3(r1.n, 8 * rng.below(4), rng, 2), t3(t1.n, 8 * rng.below(4), rng, 0);
+    memcpy(ba2.p, ba.p, ba.n);
+    vmp_apply_dft(mod, (VEC_ZNX_DFT*)r3.p, res_size, ba2.as<int64_t>(), a_size, a_sl, (VMP_PMAT*)pmat.p, nrows, ncols, t3.p);
+    if (memcmp(r1.p, r3.p, r1.n)) worse("FAIL C15 vmp_apply_dft: repeating the call through the same pointers after the input changed differs from a fresh call");
+  }
   // inverse DFT and comparison with the integer matrix-vector product
   Buf big(bytes_of_vec_znx_big(mod, res_size), 0, rng, 2);
   vec_znx_idft_tmp_a(mod, (VEC_ZNX_BIG*)big.p, res_size, (VEC_ZNX_DFT*)r1.p, res_size);
